@@ -23,9 +23,37 @@ pub const CONSTRUCTS: [&str; 12] = [
     "nested-user-calls",
 ];
 
+/// contexts covering every grammar production; `{}` is filled with a deep sub-expression.  These
+/// are driven through the two parse entry points only (the tree operations on deep trees are
+/// covered by the base constructs).
+pub const CONTEXTS: [&str; 33] = [
+    "{} + y", "y - {}", "{} * y", "y % {}", "{} & y", "y | {}", "{} == y", "y <= {}", "{} and y", "y or {}", "{} contains y", "y contains {}", "{} in y", "y in {}",
+    "-{}", "!{}", "f({})", "int({})", "({}).b", "({}).0", "[y, {}, z]", "{k: {}, j: y}", "if {} then y else z", "if y then {} else z", "if y then z else {}", "(({}))", ":s + {}",
+    "none({})", "[{}, {}]",
+    "@k: {};\nx", "@k: [i1, {}];\nx", "@name: {};\nx", "@k: i1;\n@j: {k: {}};\n{}",
+];
+
+pub fn context_text(ctx: usize, filler: &str, n: usize) -> String {
+    let deep = match filler {
+        "access" => format!("m{}", ".a".repeat(n)),
+        _ => format!("{}x", "-".repeat(n)),
+    };
+    CONTEXTS[ctx].replace("{}", &deep)
+}
+
 pub const OPS: [&str; 8] = ["parse", "rule-parse", "display", "debug", "clone", "eq", "drop", "evaluate"];
 
 pub fn text_for(construct: &str, n: usize) -> String {
+    if let Some(rest) = construct.strip_prefix("ctx") {
+        // ctx<index>-<filler>
+        if let Some((i, f)) = rest.split_once('-') {
+            if let Ok(i) = i.parse::<usize>() {
+                if i < CONTEXTS.len() {
+                    return context_text(i, f, n);
+                }
+            }
+        }
+    }
     match construct {
         "unary-chain" => format!("{}x", "-".repeat(n)),
         "not-chain" => format!("{}b", "!".repeat(n)),
@@ -63,7 +91,7 @@ pub fn child(args: &[String]) -> ! {
                 std::mem::forget(r);
             }
             "rule-parse" => {
-                let r = Rule::parse(&format!("// n\n{text}"));
+                let r = if text.starts_with('@') { Rule::parse(&format!("// n\n{text}")) } else { Rule::parse(&format!("// n\n{text}")) };
                 std::mem::forget(r);
             }
             _ => {
@@ -190,6 +218,16 @@ pub fn run(tier: Tier) -> i32 {
             }
         }
     }
+    // every grammar production around a deep operand, through the parse entry points
+    let ctx_names: Vec<String> = (0..CONTEXTS.len()).flat_map(|i| ["access", "unary"].into_iter().map(move |f| format!("ctx{i}-{f}"))).collect();
+    for c in &ctx_names {
+        for o in ["parse", "rule-parse"] {
+            for s in stacks {
+                cells.push((c.as_str(), o, s));
+            }
+        }
+    }
+    rep.bound("context_constructs", CONTEXTS.to_vec());
     // per cell: run the ladder upwards until the first crash (stack use is monotone in depth)
     let results: Vec<(usize, Option<(usize, String)>, u64, Option<usize>, Vec<String>)> = cells
         .par_iter()
